@@ -609,6 +609,8 @@ class C02(Check):
             c = comment_deviations(POOL[case[1]])[case[2]]
             return "space4 %r with comment %r alone and with every second comment%s" % (
                 S.join(POOL[case[1]]), c, "" if case[3] else " (one of the two with a plain body)")
+        if k == "hdrfull":
+            return {"header-only parse, then full parse of": case[1]}
         if k == "rejb":
             return "space6 near misses at token %d of %r with one comment in front of the error" % (case[2], S.join(POOL[case[1]]))
         if k == "lit":
@@ -728,6 +730,20 @@ class C02(Check):
             self._run_literals(case, ctx)
         elif k == "rejb":
             self._run_reject_comments(case, ctx)
+        elif k == "hdrfull":
+            text = case[1]
+            first = observe(text, _budget(text))
+            try:
+                impl.parse_jaqal_string_header(text)
+            except Exception:  # noqa: BLE001
+                pass
+            again = observe(text, _budget(text))
+            ctx.trace(2)
+            verdict = model_verdict(text)
+            bad = judge(text, verdict, again)
+            if bad is not None or again != first:
+                self._report(ctx, "header-parse-changes-result", "header-then-full",
+                             "after a header-only parse of the same text the full parse gives %r (a fresh full parse: %r)" % (again, first), case)
         else:
             raise ValueError("unknown case %r" % (case,))
 
@@ -934,7 +950,20 @@ class C02(Check):
     def _run_literals(self, case, ctx):
         _, pid = case
         toks = POOL[pid]
-        self._canonical(toks, ctx)
+        canon = self._canonical(toks, ctx)
+        # the header of the same text read on its own first (header-only parse), then the full parse again: no
+        # statement of the body may be dropped because the header was looked at before
+        ctext = S.join(toks)
+        try:
+            impl.parse_jaqal_string_header(ctext)
+        except Exception:  # noqa: BLE001 - what a header-only parse may raise is C16's business
+            pass
+        ctx.trace()
+        again = observe(ctext, _budget(ctext))
+        if again != canon[1]:
+            self._report(ctx, "header-parse-changes-result", "header-then-full",
+                         "after a header-only parse of the same text the full parse gives %r, before it gave %r" % (again, canon[1]),
+                         ("hdrfull", ctext))
         hit = False
         for j, t in enumerate(toks):
             if kv(t)[0] not in ("INT", "NUMBER"):
